@@ -93,6 +93,27 @@ add('C18', 'E1', 'exploration',
     'kernels restricted to well-conditioned removable singularities; K1, K2 frozen; three (order, ratio 16) cells are recorded findings (F13).',
     'DESIGN.md section 5/C18')
 
+add('C01', 'E1', 'exploration',
+    'bounded-exhaustive enumeration of an expression grammar (simplest first, depth <= 3) x point pool x all 240 (method, n, order) configurations x generator menu on the real Derivative; oracle = 60-digit truncated Taylor arithmetic on the same expression, envelope from an oracle-side local scale',
+    'Every program of the grammar (115 depth-1 programs in the quick tier; depth-2 compositions and binary combinations, depth-3 chains and complex-valued p+iq / exp(i phi) p variants in the thorough tier) is differentiated at every pool point with every (method, n, order), as scalar and as array call, with the default and a menu of user generators. The exact derivative comes from multiprecision jets of the same expression; the local scale S_n, the analyticity radius and the evaluation noise are oracle-side quantities; accuracy is claimed only where every documented sample point lies inside the analyticity disc (class A). n = 0 must return f(x) bit for bit; any exception is a violation.',
+    'programs deeper than 3, points off the 11-point pool and option vectors off the menu are not covered; the envelope constants E (default generators) and EU (user generators) are calibrated numbers frozen in envelopes.json; the analyticity radius is a conservative majorant bound.',
+    'DESIGN.md sections 4.1, 4.2, 5/C01')
+add('C02', 'E1', 'exploration',
+    'same enumeration as C01 with full_output=True plus the Hessian/Hessdiag space of C04; oracle = exact derivatives (jets / closed forms) for honesty, exact record invariants',
+    'On every call of the C01 space (plus a long steep user generator that admits no accuracy claim) and of the C04 space: err <= K1 x error_estimate + F x S_n on class-A cases (K1 = 10, F = max(E/100, 1e3 eps); K1 = 100 on the multivariate classes), f_value == f(x) bit for bit, estimate finite and >= 0 wherever the result is finite, final_step within the generated steps, one estimate and one final step per result entry, broadcast-compatible with the result.',
+    'constants frozen in envelopes.json; Gradient/Jacobian estimates are exercised through C03 (directionaldiff comparison) rather than here.',
+    'DESIGN.md section 5/C02')
+add('C03', 'E1', 'exploration',
+    'bounded-exhaustive enumeration of (n, m, k, map family, method, order, point, input form) on the real Jacobian / Gradient / directionaldiff; closed-form partial derivatives in multiprecision, envelope from the scale oracle on one-variable restrictions',
+    'Every cell of the product is executed: exact result shapes (m, n) / (m, n, k), every entry within the Derivative envelope E(method, 1) x S_1 of the restriction t -> f_i(x + t e_j), affine maps exact to 1e4 eps (|A||x| + |b| + |A|), Gradient == Jacobian row bit for bit, directionaldiff == Gradient . v/|v| within the two error estimates plus floor.',
+    'n <= 6 (8), m <= 4 (6), k <= 3 (4); maps from the affine / ridge families; class-A entries only for the accuracy claim.',
+    'DESIGN.md section 5/C03')
+add('C04', 'E1', 'exploration',
+    'bounded-exhaustive enumeration of (function family, n, point, method, order, generator) on the real Hessian / Hessdiag; closed-form Hessians in multiprecision, bitwise symmetry, envelope from the scale oracle on line restrictions',
+    'Every cell is executed: H.shape == (n, n), H == H.T bitwise, entries within EH(method) x S (S from the four line restrictions of a mixed partial), quadratics exact to 1e4 eps x scale, Hessdiag within EHD(method, order) of the exact diagonal, |diag(Hessian) - Hessdiag| within K1 x (sum of estimates) + floor; length-1-array-valued and complex-valued f included.',
+    'n <= 4 (6); families quad / exp+sin+quad / ridge products; constants frozen in envelopes.json.',
+    'DESIGN.md section 5/C04')
+
 NOT_YET = {}
 
 ENGINES = [
